@@ -10,13 +10,15 @@ func init() {
 		ID: "C19", Level: "exploration", Floor: 3000,
 		Rule: "a case = one configuration file (TOML text: every optional key independently unset / valid / zero / malformed, the shipped " +
 			"app_config.toml verbatim and with single-key perturbations, sparse and broken files) loaded by the real ParseConfig, plus a plan of " +
-			"4 (quick) / 8 (thorough) reload steps mixing valid, malformed and unreadable configuration and subnet files; evaluations = files put " +
+			"4 (quick) / 8 (thorough) reload steps mixing valid, malformed and unreadable configuration and subnet files, plus 2 (12) part-wise chains of 35 reloads " +
+			"in which every step changes policies and subnets while one part (GeoIP / subnets / configuration) is broken; evaluations = files put " +
 			"through the start-up sequence (+ liveness configurations and connManager traffic scripts of the two side stages, + the start-up " +
 			"configurations of the concurrent housekeeping stages, whose real work is counted separately: reports, new statistics-map keys, overlapping ingests); " +
 			"distinct_nontrivial = distinct (key-state vector, reload plan) pairs of ACCEPTED configurations that ran the full housekeeping " +
 			"round and at least one reload step",
 		Assumptions: []string{
 			"reload is applied by the driver with the five lines of cmd/application/main.go:176-191 (ParseConfig; OnReload only on success); main()'s own signal loop is not executed",
+			"the parts of a reload are independent as main.go + OnReload apply them: once ParseConfig succeeded the address policies are replaced whatever happens to the subnets file or the GeoIP databases, and the subnets are replaced iff their file loads; when ParseConfig fails nothing is demanded of the subnets but 'old or new'",
 			"whether a subnets / GeoIP part 'loaded without error' is judged by calling the repository's own loader on the same file",
 			"covert_blocklist_public_addrs depends on the machine's interfaces: only differential and no-panic checks are applied to it",
 			"host names are resolved by an in-process scripted resolver (every name -> 198.51.100.7)",
